@@ -158,117 +158,7 @@ func (c *fsCase) check(body string) (string, string) {
 	for i, s := range c.Series {
 		lbls[i] = s.Labels
 	}
-	return checkSeriesDocN(c.Kind, body, c.groups, c.k, lbls)
-}
-
-// checkSeriesDocN: checkSeriesDoc with an arbitrary number of series
-func checkSeriesDocN(w string, body string, groups []expGroup, k *concrete, lbls []map[string]string) (string, string) {
-	doc, err := strictParse([]byte(body))
-	if err != nil {
-		return "invalid-json", err.Error()
-	}
-	res, err := dataResult(doc, w)
-	if err != nil {
-		return "shape", err.Error()
-	}
-	if w == "vector" {
-		kk := &concrete{rows: k.rows}
-		// checkVector indexes labels by group fp: build a local view
-		return checkVectorN(res, groups, kk, lbls)
-	}
-	lblKey := "stream"
-	if w == "matrix" {
-		lblKey = "metric"
-	}
-	got, err := seriesOf(res, lblKey, w != "matrix")
-	if err != nil {
-		return "shape", err.Error()
-	}
-	if len(got) != len(groups) {
-		if len(got) < len(groups) {
-			return "rows-missing", fmt.Sprintf("%d result objects for %d series", len(got), len(groups))
-		}
-		return "grouping", fmt.Sprintf("%d result objects for %d series", len(got), len(groups))
-	}
-	for n, g := range groups {
-		if !sameLabels(got[n].Labels, decodedMap(lbls[g.Fp])) {
-			return "labels", fmt.Sprintf("result[%d] carries labels %q, the rows carry %q", n, got[n].Labels, lbls[g.Fp])
-		}
-		if len(got[n].Vals) != len(g.Ids) {
-			return "rows", fmt.Sprintf("result[%d] has %d values for %d rows", n, len(got[n].Vals), len(g.Ids))
-		}
-		for m, id := range g.Ids {
-			row := k.rows[id]
-			ts, v := got[n].Vals[m][0], got[n].Vals[m][1]
-			if w == "matrix" {
-				if !secondsTextIsNs(ts, row.Ts) {
-					return "timestamp-loss", fmt.Sprintf("timestamp %d ns rendered as %s", row.Ts, ts)
-				}
-				if !floatTextIs(v, row.Value) {
-					return "value-loss", fmt.Sprintf("value %s rendered as %q", row.ValS, v)
-				}
-			} else {
-				if ts != strconv.FormatInt(row.Ts, 10) {
-					return "timestamp-loss", fmt.Sprintf("timestamp %d rendered as %q", row.Ts, ts)
-				}
-				if v != decoded(row.Line) {
-					return "string", fmt.Sprintf("line %q came back as %q", clip(row.Line, 200), clip(v, 200))
-				}
-			}
-		}
-	}
-	return "", ""
-}
-
-func checkVectorN(res []any, groups []expGroup, k *concrete, lbls []map[string]string) (string, string) {
-	kk := &concrete{rows: k.rows}
-	// reuse checkVector through a 3-slot window is not possible for > 3 series: inline variant
-	if len(res) != len(groups) {
-		if len(res) < len(groups) {
-			return "rows-missing", fmt.Sprintf("%d result objects for %d series", len(res), len(groups))
-		}
-		return "grouping", fmt.Sprintf("%d result objects for %d series", len(res), len(groups))
-	}
-	_ = kk
-	used := map[int]bool{}
-	for n, el := range res {
-		o, ok := asObj(el)
-		if !ok || keysOf(o) != "metric,value" {
-			return "shape", fmt.Sprintf("result[%d] is not {metric,value}", n)
-		}
-		lbl, err := labelsFrom(o["metric"])
-		if err != nil {
-			return "shape", err.Error()
-		}
-		p, ok := o["value"].([]any)
-		if !ok || len(p) != 2 {
-			return "shape", fmt.Sprintf("result[%d].value is not a pair", n)
-		}
-		num := fmt.Sprint(p[0])
-		v, ok2 := p[1].(string)
-		if !ok2 {
-			return "shape", fmt.Sprintf("result[%d].value[1] is not a string", n)
-		}
-		found := false
-		for gi, g := range groups {
-			if used[gi] || !sameLabels(lbl, decodedMap(lbls[g.Fp])) {
-				continue
-			}
-			used[gi], found = true, true
-			row := k.rows[g.Ids[0]]
-			if !secondsTextIsNs(num, row.Ts) {
-				return "timestamp-loss", fmt.Sprintf("timestamp %d ns rendered as %s", row.Ts, num)
-			}
-			if !floatTextIs(v, row.Value) {
-				return "value-loss", fmt.Sprintf("value %s rendered as %q", row.ValS, v)
-			}
-			break
-		}
-		if !found {
-			return "grouping", fmt.Sprintf("result[%d] carries labels %q of no (remaining) series", n, lbl)
-		}
-	}
-	return "", ""
+	return checkSeriesDoc(c.Kind, body, c.groups, c.k.rows, lbls)
 }
 
 func runFullStackCase(e *env, c *fsCase) {
@@ -327,6 +217,12 @@ func runFullStackCase(e *env, c *fsCase) {
 	} else if c.HasFp0 {
 		cls = "fp0-later"
 	}
+	// streams: the same writer as in the spec cases, same signature. matrix and vector (instant) queries share the
+	// post-processing pipeline in front of the writer.
+	ep := "streams"
+	if c.Kind != "streams" {
+		ep = "metric-query-fullstack"
+	}
 	rows := []*rowC{}
 	for id := 1; id <= 6; id++ {
 		if rw, ok := c.k.rows[id]; ok {
@@ -335,7 +231,7 @@ func runFullStackCase(e *env, c *fsCase) {
 			rows = append(rows, &cp)
 		}
 	}
-	fail(Failure{Signature: c.Kind + "-fullstack|" + cls + "|" + kind, Endpoint: c.Kind + " (rows scripted in the database)", Msg: msg,
+	fail(Failure{Signature: ep + "|" + cls + "|" + kind, Endpoint: c.Kind + " query, rows scripted in the database (full stack)", Msg: msg,
 		Input: map[string]any{"case": c, "first_rows": rows}, Body: body})
 }
 
